@@ -28,6 +28,10 @@ theorem sampleResp_contract : Contract sampleResp := by
   · intro kn; cases kn <;> simp [sampleResp, sum]
   · intro ke; cases ke <;> simp [sampleResp, sum]
 
+def nsidSmallReq : Option Opt :=
+  some { udpSize := 4096, extRcode := 0, version := 0, dobit := false, z := 0,
+         opts := [{ code := 3, len := 8 }, { code := 12, len := 100 }] }
+
 def sampleReq : Option Opt :=
   some { udpSize := 512, extRcode := 0, version := 0, dobit := true, z := 0,
          opts := [{ code := 12, len := 3 }, { code := 11, len := 0 }] }
@@ -36,16 +40,18 @@ def sampleReq : Option Opt :=
 
 /-- **udp_wire_le.** On UDP (plain or DNSCrypt) the bytes sent never exceed the stated limit,
 except that header + question + OPT record are always sent: the exact bound is
-`max limit (q + OPT)`. -/
+`max limit (q + OPT)`.  `htsig`: `Msg.Truncate` does not touch a message whose last record is a
+TSIG (see `udp_bound_tsig_counterexample`). -/
 theorem udp_wire_le (t : Transport) (ht : t.isUdp = true) (cfgMax idle : Nat) (req : Option Opt)
-    (r : Resp) (draw slack : Nat) (hc : Contract r) :
+    (r : Resp) (draw slack : Nat) (hc : Contract r) (htsig : tsigAtTruncate req r = false) :
     (serve t cfgMax idle req r draw slack).wire
-      ≤ max (limit req (t.cap cfgMax)) (r.q + optLen? (serve t cfgMax idle req r draw slack).opt) := by
+      ≤ max (limit req (t.cap cfgMax)) (r.q + optLen? (baseOpt false req r)) := by
   have hp : t.hasPadding = false := by cases t <;> simp_all [Transport.isUdp, Transport.hasPadding]
   have hk : t.hasKeepAlive = false := by cases t <;> simp_all [Transport.isUdp, Transport.hasKeepAlive]
   have hb := finalLen_truncate_le (maxDNSSize t.isUdp (advertised req) (t.cap cfgMax)) r
     (baseOpt false req r) hc
-  simp only [serve, serveG, normalizeG, hk, padStep_plain t hp, Bool.false_eq_true, ↓reduceIte]
+  rw [serve_wire, serve_cut, htsig]
+  simp only [prePack, normalizeG, hk, padStep_plain t hp, Bool.false_eq_true, ↓reduceIte]
   have hl : max (maxDNSSize t.isUdp (advertised req) (t.cap cfgMax)) minMsgSize
       = limit req (t.cap cfgMax) := by
     simp only [maxDNSSize, ht, limit, minMsgSize]
@@ -54,22 +60,81 @@ theorem udp_wire_le (t : Transport) (ht : t.isUdp = true) (cfgMax idle : Nat) (r
   rw [hl] at hb
   omega
 
-/-- **udp_bound_partial.** When header + question + the OPT record that is sent fit the limit,
-the UDP response is never larger than `max(512, min(advertised, configured))`.
-PARTIAL: the hypothesis `hfit` excludes responses whose un-droppable part alone is too large
-(known findings `udp-oversize-reflected-option-payload`, `udp-oversize-handler-opt-undroppable`). -/
+/-- On UDP nothing is appended after truncation: the OPT record sent is the one `baseOpt`
+computes from the request and the handler's response alone (up to the extended-rcode byte). -/
+theorem udp_opt_is_base (t : Transport) (ht : t.isUdp = true) (cfgMax idle : Nat) (req : Option Opt)
+    (r : Resp) (draw slack : Nat) :
+    (serve t cfgMax idle req r draw slack).opt = packOpt r.rcodeHi (baseOpt false req r) := by
+  have hp : t.hasPadding = false := by cases t <;> simp_all [Transport.isUdp, Transport.hasPadding]
+  have hk : t.hasKeepAlive = false := by cases t <;> simp_all [Transport.isUdp, Transport.hasKeepAlive]
+  rw [serve_opt]
+  simp only [prePack, normalizeG, hk, padStep_plain t hp, Bool.false_eq_true, ↓reduceIte]
+
+/-- **udp_bound_partial.** When header + question + the OPT record fit the limit (a condition on
+the *inputs*: `baseOpt` is the handler's own OPT record, or else the reflection of the client's
+NSID/EXPIRE options), the UDP response is never larger than `max(512, min(advertised, configured))`.
+PARTIAL: `hfit` excludes responses whose un-droppable part alone is too large (known findings
+`udp-oversize-reflected-option-payload`, `udp-oversize-handler-opt-undroppable`), `htsig` excludes
+TSIG-signed handler responses (`udp-oversize-tsig-not-truncated`). -/
 theorem udp_bound_partial (t : Transport) (ht : t.isUdp = true) (cfgMax idle : Nat)
     (req : Option Opt) (r : Resp) (draw slack : Nat) (hc : Contract r)
-    (hfit : r.q + optLen? (serve t cfgMax idle req r draw slack).opt ≤ limit req (t.cap cfgMax)) :
+    (htsig : tsigAtTruncate req r = false)
+    (hfit : r.q + optLen? (baseOpt false req r) ≤ limit req (t.cap cfgMax)) :
     (serve t cfgMax idle req r draw slack).wire ≤ limit req (t.cap cfgMax) := by
-  have := udp_wire_le t ht cfgMax idle req r draw slack hc
+  have := udp_wire_le t ht cfgMax idle req r draw slack hc htsig
   omega
 
-example : Contract sampleResp ∧
-    sampleResp.q + optLen? (serve .udp 1232 0 sampleReq sampleResp 0 0).opt ≤ limit sampleReq 1232 ∧
+/-- **udp_bound_everyday.** The full UDP clause for the everyday class of traffic: the handler's
+response has no OPT record and no TSIG of its own (what the cache and the forwarder produce),
+header + question are at most 300 bytes (a question is at most 12 + 255 + 4), and the NSID/EXPIRE
+options the client sent total at most 200 bytes: *every* such response, of any size and section
+mix, to *any* advertised size and cap, respects the limit. -/
+theorem udp_bound_everyday (t : Transport) (ht : t.isUdp = true) (cfgMax idle : Nat)
+    (req : Option Opt) (r : Resp) (draw slack : Nat) (hc : Contract r)
+    (hopt : r.opt = none) (htsig : r.tsig = false) (hq : r.q ≤ 300)
+    (hrefl : ∀ ro, req = some ro → optsLen (filterSupported ro.opts) ≤ 200) :
+    (serve t cfgMax idle req r draw slack).wire ≤ limit req (t.cap cfgMax) := by
+  apply udp_bound_partial t ht cfgMax idle req r draw slack hc
+  · simp [tsigAtTruncate, htsig]
+  · have h512 : 512 ≤ limit req (t.cap cfgMax) := by unfold limit; omega
+    cases req with
+    | none => simp only [baseOpt, hopt, optLen?]; omega
+    | some ro =>
+      have := hrefl ro rfl
+      simp only [baseOpt, hopt, optLen?, optLen, synthOpt]
+      omega
+
+/-- **udp_no_amplification.** Even in the region `udp_bound_partial` excludes, a response whose
+OPT record is synthesised is never larger than the stated limit or than header + question + the
+client's own OPT record, i.e. than the query (the response repeats the query's question). -/
+theorem udp_no_amplification (t : Transport) (ht : t.isUdp = true) (cfgMax idle : Nat)
+    (req : Option Opt) (r : Resp) (draw slack : Nat) (hc : Contract r)
+    (hopt : r.opt = none) (htsig : r.tsig = false) :
+    (serve t cfgMax idle req r draw slack).wire
+      ≤ max (limit req (t.cap cfgMax)) (r.q + optLen? req) := by
+  have h := udp_wire_le t ht cfgMax idle req r draw slack hc (by simp [tsigAtTruncate, htsig])
+  have : optLen? (baseOpt false req r) ≤ optLen? req := by
+    cases req with
+    | none => simp [baseOpt, hopt, optLen?]
+    | some ro =>
+      simp only [baseOpt, hopt, optLen?, optLen, synthOpt]
+      have := optsLen_filterSupported_le ro.opts
+      omega
+  omega
+
+example : Contract sampleResp ∧ tsigAtTruncate sampleReq sampleResp = false ∧
+    sampleResp.q + optLen? (baseOpt false sampleReq sampleResp) ≤ limit sampleReq 1232 ∧
     (serve .udp 1232 0 sampleReq sampleResp 0 0).wire = 72 ∧
     (serve .udp 1232 0 sampleReq sampleResp 0 0).cut = { ka := 0, kn := 1, ke := 0, tc := true } :=
-  ⟨sampleResp_contract, by decide, by decide, by decide⟩
+  ⟨sampleResp_contract, by decide, by decide, by decide, by decide⟩
+
+example : sampleResp.opt = none ∧ sampleResp.tsig = false ∧ sampleResp.q ≤ 300 ∧
+    (∀ ro, nsidSmallReq = some ro → optsLen (filterSupported ro.opts) ≤ 200) ∧
+    (serve .dcUdp 0 0 nsidSmallReq sampleResp 0 0).wire = 598 := by
+  refine ⟨rfl, rfl, by decide, ?_, by decide⟩
+  intro ro h
+  cases h
+  decide
 
 /-- The full statement of the UDP clause. -/
 def UdpBoundFull : Prop :=
@@ -98,7 +163,54 @@ theorem udp_bound_counterexample : ¬ UdpBoundFull := by
   revert this
   decide
 
+def tsigResp : Resp :=
+  { tc := false, q := 29, unc := 1000, ans := [16], ns := [], extra := [900], ns2 := [],
+    extra2 := [902], opt := none, tsig := true }
+
+theorem tsigResp_contract : Contract tsigResp := by
+  refine ⟨by decide, ?_, ?_⟩
+  · intro kn; simp [tsigResp, sum]
+  · intro ke; cases ke <;> simp [tsigResp, sum]
+
+/-- **udp_bound_tsig_counterexample.** `Msg.Truncate` leaves a message whose last record is a TSIG
+untouched: to a query without OPT such a 945-byte handler response is sent whole over UDP
+(limit 512), header + question being only 29 bytes.  (With a request OPT the synthesised OPT
+record is appended *after* the TSIG, `IsTsig` no longer sees it, and truncation works.) -/
+theorem udp_bound_tsig_counterexample :
+    ¬ ∀ (t : Transport), t.isUdp = true → ∀ (cfgMax idle : Nat) (req : Option Opt) (r : Resp)
+        (draw slack : Nat), Contract r →
+        r.q + optLen? (baseOpt false req r) ≤ limit req (t.cap cfgMax) →
+        (serve t cfgMax idle req r draw slack).wire ≤ limit req (t.cap cfgMax) := by
+  intro h
+  have := h .udp (by decide) 1232 0 none tsigResp 0 0 tsigResp_contract (by decide)
+  revert this
+  decide
+
+example : (serve .udp 1232 0 none tsigResp 0 0).wire = 945 ∧
+    (serve .udp 1232 0 sampleReq tsigResp 0 0).wire = 40 ∧
+    tsigAtTruncate sampleReq tsigResp = false := by decide
+
 /-! ## Safe truncation -/
+
+/-- **fits_untouched.** Records are dropped only when they must be: a response whose
+uncompressed length (OPT included) is within the limit of its transport keeps every record and
+its TC bit as the handler set it. -/
+theorem fits_untouched (t : Transport) (cfgMax idle : Nat) (req : Option Opt) (r : Resp)
+    (draw slack : Nat) (htc : r.tc = false)
+    (hfit : r.unc + optLen? (baseOpt false req r)
+      ≤ (if t.isUdp then limit req (t.cap cfgMax) else 65535)) :
+    (serve t cfgMax idle req r draw slack).cut =
+      { ka := r.ans.length, kn := r.ns.length, ke := r.extra.length, tc := false } := by
+  have hl : max (maxDNSSize t.isUdp (advertised req) (t.cap cfgMax)) minMsgSize
+      = (if t.isUdp then limit req (t.cap cfgMax) else 65535) := by
+    cases hu : t.isUdp <;> simp [maxDNSSize, limit, minMsgSize, maxMsgSize] <;> omega
+  rw [serve_cut]
+  unfold truncate msgTruncate
+  rw [hl]
+  simp [hfit, htc]
+
+example : (serve .udp 1232 0 sampleReq smallResp 0 0).cut = { ka := 1, kn := 0, ke := 0, tc := false } := by
+  decide
 
 /-- **tc_implies_no_answers.** A response that leaves with TC set carries no answers. -/
 theorem tc_implies_no_answers (t : Transport) (cfgMax idle : Nat) (req : Option Opt) (r : Resp)
@@ -106,7 +218,7 @@ theorem tc_implies_no_answers (t : Transport) (cfgMax idle : Nat) (req : Option 
     (serve t cfgMax idle req r draw slack).cut.tc = true →
     (serve t cfgMax idle req r draw slack).cut.ka = 0 := by
   simp only [serve, serveG, normalizeG]
-  exact truncate_tc_ka _ _ _
+  exact truncate_tc_ka _ _ _ _
 
 /-- **dropped_implies_tc.** Whenever a record of any section is dropped, TC is set and the answer
 section is empty. -/
@@ -118,7 +230,7 @@ theorem dropped_implies_tc (t : Transport) (cfgMax idle : Nat) (req : Option Opt
     (serve t cfgMax idle req r draw slack).cut.tc = true ∧
     (serve t cfgMax idle req r draw slack).cut.ka = 0 := by
   simp only [serve, serveG, normalizeG] at hd ⊢
-  exact truncate_dropped _ _ _ hd
+  exact truncate_dropped _ _ _ _ hd
 
 example : (serve .udp 1232 0 sampleReq sampleResp 0 0).cut.ke < sampleResp.extra.length ∧
     (serve .udp 1232 0 sampleReq sampleResp 0 0).cut.tc = true := by decide
@@ -130,11 +242,16 @@ version 0 — on every transport, whether the handler's response had an OPT reco
 theorem opt_echo (t : Transport) (cfgMax idle : Nat) (ro : Opt) (r : Resp) (draw slack : Nat) :
     ∃ o, (serve t cfgMax idle (some ro) r draw slack).opt = some o ∧ o.udpSize = ro.udpSize ∧
       o.version = 0 := by
-  simp only [serve, serveG, normalizeG, baseOpt, padStep, addKeepAlive]
-  cases hr : r.opt <;> simp only [] <;>
-    by_cases hk : t.hasKeepAlive = true <;> by_cases hp : t.hasPadding = true <;>
-    simp only [hk, hp, ↓reduceIte, padAnswer] <;>
-    (repeat' split) <;> simp [rewriteOpt, synthOpt]
+  have hpre : ∃ o, prePack t cfgMax idle (some ro) r draw = some o ∧ o.udpSize = ro.udpSize ∧
+      o.version = 0 := by
+    simp only [prePack, normalizeG, baseOpt, padStep, addKeepAlive]
+    cases hr : r.opt <;> simp only [] <;>
+      by_cases hk : t.hasKeepAlive = true <;> by_cases hp : t.hasPadding = true <;>
+      simp only [hk, hp, ↓reduceIte, padAnswer] <;>
+      (repeat' split) <;> simp [rewriteOpt, synthOpt]
+  obtain ⟨o, ho, h1, h2⟩ := hpre
+  obtain ⟨o', ho', e1, e2, _, _⟩ := packOpt_some r.rcodeHi _ o ho
+  exact ⟨o', by rw [serve_opt]; exact ho', by omega, by omega⟩
 
 example : (serve .doh 1232 0 sampleReq sampleResp 0 0).opt =
     some { udpSize := 512, extRcode := 0, version := 0, dobit := false, z := 0,
@@ -172,7 +289,8 @@ theorem padding_only_when (t : Transport) (cfgMax idle : Nat) (req : Option Opt)
     (draw slack : Nat) (h : ¬ (t.hasPadding = true ∧ reqHas codePadding req = true)) :
     lensOf? codePadding (serve t cfgMax idle req r draw slack).opt = lensOf? codePadding r.opt := by
   have hne : codeKeepAlive ≠ codePadding := by decide
-  simp only [serve, serveG, normalizeG, baseOpt, padStep, addKeepAlive]
+  rw [serve_opt, lensOf?_packOpt]
+  simp only [prePack, normalizeG, baseOpt, padStep, addKeepAlive]
   cases req with
   | none => cases hr : r.opt <;> simp
   | some ro =>
@@ -199,12 +317,16 @@ theorem padding_when_added (t : Transport) (cfgMax idle : Nat) (ro : Opt) (r : R
     unfold baseOpt; cases r.opt <;> simp
   obtain ⟨e, he, h1, h2, h3⟩ := padAnswer_mem ro b draw hp
   obtain ⟨o', ho', hmem⟩ := addKeepAlive_some_mem ro (padAnswer ro b draw) idle
-  simp only [serve, serveG, normalizeG, hb, padStep, ht, ↓reduceIte]
-  by_cases hk : t.hasKeepAlive = true
-  · simp only [hk, ↓reduceIte, ho']
-    exact ⟨o', e, rfl, hmem e he (by rw [h1]; decide), h1, h2, h3⟩
-  · simp only [hk, Bool.false_eq_true, ↓reduceIte]
-    exact ⟨_, e, rfl, he, h1, h2, h3⟩
+  have hpre : ∃ o, prePack t cfgMax idle (some ro) r draw = some o ∧ e ∈ o.opts := by
+    simp only [prePack, normalizeG, hb, padStep, ht, ↓reduceIte]
+    by_cases hk : t.hasKeepAlive = true
+    · simp only [hk, ↓reduceIte, ho']
+      exact ⟨o', rfl, hmem e he (by rw [h1]; decide)⟩
+    · simp only [hk, Bool.false_eq_true, ↓reduceIte]
+      exact ⟨_, rfl, he⟩
+  obtain ⟨o, ho, hin⟩ := hpre
+  obtain ⟨o2, ho2, _, _, e3, _⟩ := packOpt_some r.rcodeHi _ o ho
+  exact ⟨o2, e, by rw [serve_opt]; exact ho2, by rw [e3]; exact hin, h1, h2, h3⟩
 
 example : Transport.hasPadding .dot = true ∧ reqHas codePadding sampleReq = true ∧
     lensOf? codePadding (serve .dot 0 30000 sampleReq sampleResp 6 0).opt = [7] ∧
@@ -218,7 +340,8 @@ theorem keepalive_only_when (t : Transport) (cfgMax idle : Nat) (req : Option Op
     lensOf? codeKeepAlive (serve t cfgMax idle req r draw slack).opt
       = lensOf? codeKeepAlive r.opt := by
   have hne : codePadding ≠ codeKeepAlive := by decide
-  simp only [serve, serveG, normalizeG, baseOpt, padStep, addKeepAlive]
+  rw [serve_opt, lensOf?_packOpt]
+  simp only [prePack, normalizeG, baseOpt, padStep, addKeepAlive]
   cases req with
   | none => cases hr : r.opt <;> by_cases hk : t.hasKeepAlive = true <;> simp [hk]
   | some ro =>
@@ -254,7 +377,7 @@ theorem stream_guard (t : Transport) (ht : t.guarded = true) (cfgMax idle : Nat)
 is appended after truncation (padding ≤ 35, keep-alive ≤ 6), unless header + question + OPT alone
 exceed 65535. -/
 theorem stream_len_le (t : Transport) (ht : t.isUdp = false) (cfgMax idle : Nat) (req : Option Opt)
-    (r : Resp) (draw slack : Nat) (hc : Contract r) :
+    (r : Resp) (draw slack : Nat) (hc : Contract r) (htsig : tsigAtTruncate req r = false) :
     (serve t cfgMax idle req r draw slack).wire
       ≤ max 65535 (r.q + optLen? (baseOpt false req r)) + 41 := by
   have hb := finalLen_truncate_le (maxDNSSize t.isUdp (advertised req) (t.cap cfgMax)) r
@@ -264,44 +387,72 @@ theorem stream_len_le (t : Transport) (ht : t.isUdp = false) (cfgMax idle : Nat)
   rw [hl] at hb
   have h1 := optLen_padStep_le t req (baseOpt false req r) draw
   have h2 := optLen_addKeepAlive_le req (padStep t req (baseOpt false req r) draw) idle
-  simp only [serve, serveG, normalizeG]
+  rw [serve_wire, serve_cut, htsig]
+  simp only [prePack, normalizeG]
   by_cases hk : t.hasKeepAlive = true
   · simp only [hk, ↓reduceIte]
-    have := finalLen_opt_le r (truncate (maxDNSSize t.isUdp (advertised req) (t.cap cfgMax)) r
+    have := finalLen_opt_le r (truncate false (maxDNSSize t.isUdp (advertised req) (t.cap cfgMax)) r
       (baseOpt false req r)) (baseOpt false req r)
       (addKeepAlive req (padStep t req (baseOpt false req r) draw) idle) 41 (by omega)
     omega
   · simp only [hk, Bool.false_eq_true, ↓reduceIte]
-    have := finalLen_opt_le r (truncate (maxDNSSize t.isUdp (advertised req) (t.cap cfgMax)) r
+    have := finalLen_opt_le r (truncate false (maxDNSSize t.isUdp (advertised req) (t.cap cfgMax)) r
       (baseOpt false req r)) (baseOpt false req r)
       (padStep t req (baseOpt false req r) draw) 41 (by omega)
     omega
 
-/-- **stream_bound_partial.** On every stream transport, when nothing is appended after truncation
-(the OPT record sent is the one present during truncation — e.g. DoH/DoQ for a client that sent
-no padding option, TCP for one that sent no keep-alive) and header + question + OPT fit, the
-response is at most 65535 bytes.
-PARTIAL: with padding / keep-alive appended the bound is `stream_len_le`; on DoH the excess is
-sent (known finding `doh-oversize-padding-after-truncate`). -/
+/-- Nothing is appended after truncation: not on DNSCrypt, not on DoH/DoQ for a client that sent
+no padding option. -/
+theorem prePack_is_base (t : Transport) (cfgMax idle : Nat) (req : Option Opt) (r : Resp)
+    (draw : Nat) (hk : t.hasKeepAlive = false)
+    (hp : t.hasPadding = false ∨ reqHas codePadding req = false) :
+    prePack t cfgMax idle req r draw = baseOpt false req r := by
+  simp only [prePack, normalizeG, hk, Bool.false_eq_true, ↓reduceIte]
+  rcases hp with hp | hp
+  · exact padStep_plain t hp _ _ _
+  · unfold padStep
+    cases req with
+    | none => rfl
+    | some ro =>
+      have : hasCode codePadding ro.opts = false := hp
+      cases baseOpt false (some ro) r <;> simp [padAnswer, this]
+
+/-- **stream_bound_partial.** Every DNS message that leaves over a stream transport is at most
+65535 bytes — on TCP, DoT and DoQ unconditionally (`packWithPrefix`), on DNSCrypt/TCP and on DoH
+when header + question + OPT fit and the response is not TSIG-signed — with ONE exception:
+PARTIAL: DoH to a client that sent the padding option (padding is appended after truncation and
+DoH has no length guard: known finding `doh-oversize-padding-after-truncate`, bound
+`stream_len_le`). -/
 theorem stream_bound_partial (t : Transport) (ht : t.isUdp = false) (cfgMax idle : Nat)
     (req : Option Opt) (r : Resp) (draw slack : Nat) (hc : Contract r)
-    (hsame : (serve t cfgMax idle req r draw slack).opt = baseOpt false req r)
-    (hfit : r.q + optLen? (baseOpt false req r) ≤ 65535) :
+    (he : (serve t cfgMax idle req r draw slack).emitted = true)
+    (hfit : t.guarded = false →
+      tsigAtTruncate req r = false ∧ r.q + optLen? (baseOpt false req r) ≤ 65535)
+    (hex : ¬ (t = .doh ∧ reqHas codePadding req = true)) :
     (serve t cfgMax idle req r draw slack).wire ≤ 65535 := by
-  have hb := finalLen_truncate_le (maxDNSSize t.isUdp (advertised req) (t.cap cfgMax)) r
-    (baseOpt false req r) hc
-  have hl : max (maxDNSSize t.isUdp (advertised req) (t.cap cfgMax)) minMsgSize = 65535 := by
-    simp [maxDNSSize, ht, maxMsgSize, minMsgSize]
-  rw [hl] at hb
-  simp only [serve, serveG, normalizeG] at hsame ⊢
-  rw [hsame]
-  omega
+  by_cases hg : t.guarded = true
+  · exact stream_guard t hg cfgMax idle req r draw slack he
+  · have hg' : t.guarded = false := by simpa using hg
+    obtain ⟨htsig, hq⟩ := hfit hg'
+    have hk : t.hasKeepAlive = false := by
+      cases t <;> simp_all [Transport.guarded, Transport.hasKeepAlive]
+    have hp : t.hasPadding = false ∨ reqHas codePadding req = false := by
+      cases t <;> simp_all [Transport.guarded, Transport.hasPadding, Transport.isUdp]
+    have hb := finalLen_truncate_le (maxDNSSize t.isUdp (advertised req) (t.cap cfgMax)) r
+      (baseOpt false req r) hc
+    have hl : max (maxDNSSize t.isUdp (advertised req) (t.cap cfgMax)) minMsgSize = 65535 := by
+      simp [maxDNSSize, ht, maxMsgSize, minMsgSize]
+    rw [hl] at hb
+    rw [serve_wire, serve_cut, htsig, prePack_is_base t cfgMax idle req r draw hk hp]
+    omega
 
-example : Contract sampleResp ∧
-    (serve .doh 0 0 none sampleResp 0 0).opt = baseOpt false none sampleResp ∧
-    sampleResp.q + optLen? (baseOpt false none sampleResp) ≤ 65535 ∧
+example : Contract sampleResp ∧ (serve .doh 0 0 none sampleResp 0 0).emitted = true ∧
+    (Transport.guarded .doh = false →
+      tsigAtTruncate none sampleResp = false ∧
+      sampleResp.q + optLen? (baseOpt false none sampleResp) ≤ 65535) ∧
+    ¬ (Transport.doh = .doh ∧ reqHas codePadding none = true) ∧
     (serve .doh 0 0 none sampleResp 0 0).wire = 575 :=
-  ⟨sampleResp_contract, by decide, by decide, by decide⟩
+  ⟨sampleResp_contract, by decide, fun _ => ⟨by decide, by decide⟩, by decide, by decide⟩
 
 /-- The full statement of the stream clause. -/
 def StreamBoundFull : Prop :=
@@ -326,6 +477,171 @@ theorem doh_bound_counterexample : ¬ StreamBoundFull := by
   revert this
   decide
 
+/-! ## The whole server: whatever one query causes on the wire
+
+`respond` adds the code around the write path: `acceptMsg` (FORMERR / NOTIMP / ignored
+messages), a handler that writes, stays silent or fails, the SERVFAIL that TCP/DoT send after
+`packWithPrefix` refused the handler's response, and the SERVFAIL DoQ and DNSCrypt send for a
+silent handler.  Every message it emits is `serve` applied to the handler's response or to a
+server-made error response, so every clause above carries over to *all* queries (malformed ones
+included) and *all* handler behaviours. -/
+
+/-- The handler's own OPT record, if the handler wrote a response. -/
+def Handler.opt : Handler → Option Opt
+  | .wrote r => r.opt
+  | _ => none
+
+/-- **respond_is_serve.** Anything `respond` puts on the wire is the output of the write path for
+either the handler's response or a server-made error response (`genErrorResponse`, possibly with
+the extended-error OPT of `addEDE`). -/
+theorem respond_is_serve (t : Transport) (cfgMax idle : Nat) (hdr : QHdr) (qe : Nat)
+    (req : Option Opt) (h : Handler) (draw slack draw2 : Nat) (o : Out)
+    (ho : respond t cfgMax idle hdr qe req h draw slack draw2 = some o) :
+    o.emitted = true ∧ ∃ r' d' s', o = serve t cfgMax idle req r' d' s' ∧
+      (h = .wrote r' ∨ r' = errResp qe none ∨ r' = errResp qe (edeOpt req)) := by
+  unfold respond respondG at ho
+  cases hs : serverResp hdr qe req h with
+  | some r =>
+    have hr : h = .wrote r ∨ r = errResp qe none ∨ r = errResp qe (edeOpt req) := by
+      unfold serverResp at hs
+      cases ha : acceptMsg hdr <;> simp only [ha] at hs
+      rotate_right
+      · cases hs
+      · cases h with
+        | wrote r0 => left; simp at hs; rw [hs]
+        | silent => simp at hs
+        | failed to =>
+          simp at hs
+          cases to <;> simp at hs <;> simp [← hs]
+      · right; left; simp at hs; exact hs.symm
+      · right; left; simp at hs; exact hs.symm
+    simp only [hs] at ho
+    by_cases he : (serveG false t cfgMax idle req r draw slack).emitted = true
+    · simp only [he, ↓reduceIte, Option.some.injEq] at ho
+      subst ho
+      exact ⟨he, r, draw, slack, rfl, hr⟩
+    · simp only [he, Bool.false_eq_true, ↓reduceIte] at ho
+      by_cases hk : (t.hasKeepAlive && handlerWrote hdr h) = true
+      · simp only [hk, ↓reduceIte, emittedOnly] at ho
+        by_cases he2 : (serveG false t cfgMax idle req (errResp qe none) draw2 0).emitted = true
+        · simp only [he2, ↓reduceIte, Option.some.injEq] at ho
+          subst ho
+          exact ⟨he2, _, draw2, 0, rfl, Or.inr (Or.inl rfl)⟩
+        · simp [he2] at ho
+      · simp [hk] at ho
+  | none =>
+    simp only [hs] at ho
+    cases t <;> simp only [emittedOnly] at ho
+    case doq =>
+      by_cases he2 : (serveG false .doq cfgMax idle req (errResp qe none) draw 0).emitted = true
+      · simp only [he2, ↓reduceIte, Option.some.injEq] at ho
+        subst ho
+        exact ⟨he2, _, draw, 0, rfl, Or.inr (Or.inl rfl)⟩
+      · simp [he2] at ho
+    case dcUdp =>
+      simp at ho; subst ho
+      exact ⟨serve_emitted_of_unguarded .dcUdp rfl _ _ _ _ _ _, _, draw, 0, rfl, Or.inr (Or.inl rfl)⟩
+    case dcTcp =>
+      simp at ho; subst ho
+      exact ⟨serve_emitted_of_unguarded .dcTcp rfl _ _ _ _ _ _, _, draw, 0, rfl, Or.inr (Or.inl rfl)⟩
+    all_goals simp at ho
+
+/-- **respond_opt_echo.** Whatever a query that carries an OPT record gets back — the handler's
+response, FORMERR/NOTIMP for a malformed query, SERVFAIL for a failed or silent handler, the
+SERVFAIL after a refused oversize response — carries an OPT record with the client's UDP size
+and version 0. -/
+theorem respond_opt_echo (t : Transport) (cfgMax idle : Nat) (hdr : QHdr) (qe : Nat) (ro : Opt)
+    (h : Handler) (draw slack draw2 : Nat) (o : Out)
+    (ho : respond t cfgMax idle hdr qe (some ro) h draw slack draw2 = some o) :
+    ∃ op, o.opt = some op ∧ op.udpSize = ro.udpSize ∧ op.version = 0 := by
+  obtain ⟨_, r', d', s', rfl, _⟩ := respond_is_serve t cfgMax idle hdr qe (some ro) h draw slack draw2 o ho
+  exact opt_echo t cfgMax idle ro r' d' s'
+
+/-- **respond_stream_guard.** TCP, DoT and DoQ: nothing one query causes on the wire — fallback
+SERVFAIL included — is longer than 65535 bytes. -/
+theorem respond_stream_guard (t : Transport) (ht : t.guarded = true) (cfgMax idle : Nat) (hdr : QHdr)
+    (qe : Nat) (req : Option Opt) (h : Handler) (draw slack draw2 : Nat) (o : Out)
+    (ho : respond t cfgMax idle hdr qe req h draw slack draw2 = some o) : o.wire ≤ 65535 := by
+  obtain ⟨he, r', d', s', rfl, _⟩ := respond_is_serve t cfgMax idle hdr qe req h draw slack draw2 o ho
+  exact stream_guard t ht cfgMax idle req r' d' s' he
+
+/-- **respond_udp_bound_partial.** UDP: whatever one query causes on the wire respects the limit,
+under the same two exclusions as `udp_bound_partial` for the handler's own response; a
+server-made error response needs only header + question + reflected options to fit. -/
+theorem respond_udp_bound_partial (t : Transport) (ht : t.isUdp = true) (cfgMax idle : Nat)
+    (hdr : QHdr) (qe : Nat) (req : Option Opt) (h : Handler) (draw slack draw2 : Nat) (o : Out)
+    (ho : respond t cfgMax idle hdr qe req h draw slack draw2 = some o)
+    (hh : ∀ r, h = .wrote r → Contract r ∧ tsigAtTruncate req r = false ∧
+      r.q + optLen? (baseOpt false req r) ≤ limit req (t.cap cfgMax))
+    (hq : qe + optLen? (baseOpt false req (errResp qe none)) ≤ limit req (t.cap cfgMax))
+    (hq2 : qe + optLen? (baseOpt false req (errResp qe (edeOpt req))) ≤ limit req (t.cap cfgMax)) :
+    o.wire ≤ limit req (t.cap cfgMax) := by
+  obtain ⟨_, r', d', s', rfl, hr⟩ := respond_is_serve t cfgMax idle hdr qe req h draw slack draw2 o ho
+  have hce : ∀ op, Contract (errResp qe op) := by
+    intro op
+    refine ⟨by simp [errResp, sum], ?_, ?_⟩ <;> intro k <;> simp [errResp, sum]
+  rcases hr with hr | hr | hr
+  · obtain ⟨hc, htsig, hfit⟩ := hh r' hr
+    exact udp_bound_partial t ht cfgMax idle req r' d' s' hc htsig hfit
+  · subst hr
+    exact udp_bound_partial t ht cfgMax idle req _ d' s' (hce _) (by simp [tsigAtTruncate, errResp]) hq
+  · subst hr
+    exact udp_bound_partial t ht cfgMax idle req _ d' s' (hce _) (by simp [tsigAtTruncate, errResp]) hq2
+
+/-- **respond_padding_only_when.** Unless the transport is DoT/DoH/DoQ and the client sent the
+padding option, no message caused by the query carries padding the handler did not put there. -/
+theorem respond_padding_only_when (t : Transport) (cfgMax idle : Nat) (hdr : QHdr) (qe : Nat)
+    (req : Option Opt) (h : Handler) (draw slack draw2 : Nat) (o : Out)
+    (ho : respond t cfgMax idle hdr qe req h draw slack draw2 = some o)
+    (hn : ¬ (t.hasPadding = true ∧ reqHas codePadding req = true)) :
+    lensOf? codePadding o.opt = lensOf? codePadding h.opt ∨ lensOf? codePadding o.opt = [] := by
+  obtain ⟨_, r', d', s', rfl, hr⟩ := respond_is_serve t cfgMax idle hdr qe req h draw slack draw2 o ho
+  have := padding_only_when t cfgMax idle req r' d' s' hn
+  rcases hr with hr | hr | hr
+  · left; rw [this, hr]; rfl
+  · right; rw [this, hr]; rfl
+  · right; rw [this, hr]; cases req <;> rfl
+
+/-- **respond_keepalive_only_when.** Unless the message is written by the TCP/DoT writer and the
+client sent the keep-alive option, no message caused by the query carries a keep-alive option the
+handler did not put there. -/
+theorem respond_keepalive_only_when (t : Transport) (cfgMax idle : Nat) (hdr : QHdr) (qe : Nat)
+    (req : Option Opt) (h : Handler) (draw slack draw2 : Nat) (o : Out)
+    (ho : respond t cfgMax idle hdr qe req h draw slack draw2 = some o)
+    (hn : ¬ (t.hasKeepAlive = true ∧ reqHas codeKeepAlive req = true)) :
+    lensOf? codeKeepAlive o.opt = lensOf? codeKeepAlive h.opt ∨ lensOf? codeKeepAlive o.opt = [] := by
+  obtain ⟨_, r', d', s', rfl, hr⟩ := respond_is_serve t cfgMax idle hdr qe req h draw slack draw2 o ho
+  have := keepalive_only_when t cfgMax idle req r' d' s' hn
+  rcases hr with hr | hr | hr
+  · left; rw [this, hr]; rfl
+  · right; rw [this, hr]; rfl
+  · right; rw [this, hr]; cases req <;> rfl
+
+/-- A query with two questions and an OPT record: FORMERR with the OPT echoed, on every transport. -/
+def twoQuestions : QHdr := { response := false, opcode := 0, nq := 2, nans := 0, nns := 0 }
+def goodQuery : QHdr := { response := false, opcode := 0, nq := 1, nans := 0, nns := 0 }
+
+example : (respond .udp 1232 0 twoQuestions 29 sampleReq .silent 0 0 0).map (·.wire) = some 40 ∧
+    (respond .udp 1232 0 goodQuery 29 sampleReq .silent 0 0 0) = none ∧
+    (respond .dcUdp 1232 0 goodQuery 29 sampleReq .silent 0 0 0).map (·.wire) = some 40 ∧
+    (respond .doq 1232 0 goodQuery 29 sampleReq (.failed true) 0 0 0).map (·.wire) = some 51 ∧
+    (respond .tcp 0 30000 goodQuery 29 sampleReq (.wrote bigResp) 0 0 0).map (·.wire) = some 46 := by
+  decide
+
+/-- **dnscrypt_silent_legacy_counterexample.** On the pinned tree the DNSCrypt server answered a
+query whose handler stayed silent with a SERVFAIL that skipped `normalize`: no OPT record although
+the query carried one. -/
+theorem dnscrypt_silent_legacy_counterexample :
+    ¬ ∀ (t : Transport) (cfgMax idle : Nat) (hdr : QHdr) (qe : Nat) (ro : Opt) (h : Handler)
+        (draw slack draw2 : Nat) (o : Out),
+        respondG true t cfgMax idle hdr qe (some ro) h draw slack draw2 = some o →
+        ∃ op, o.opt = some op ∧ op.udpSize = ro.udpSize ∧ op.version = 0 := by
+  intro hall
+  obtain ⟨op, h1, _⟩ := hall .dcUdp 1232 0 goodQuery 29
+    { udpSize := 1232, extRcode := 0, version := 0, dobit := false, z := 0, opts := [] } .silent 0 0 0
+    (rawServfail 29) (by decide)
+  simp [rawServfail] at h1
+
 #print axioms udp_wire_le
 #print axioms udp_bound_partial
 #print axioms udp_bound_counterexample
@@ -339,6 +655,20 @@ theorem doh_bound_counterexample : ¬ StreamBoundFull := by
 #print axioms stream_guard
 #print axioms stream_len_le
 #print axioms stream_bound_partial
+#print axioms udp_bound_tsig_counterexample
+#print axioms tsigResp_contract
+#print axioms fits_untouched
+#print axioms udp_opt_is_base
+#print axioms udp_bound_everyday
+#print axioms udp_no_amplification
+#print axioms prePack_is_base
+#print axioms respond_is_serve
+#print axioms respond_opt_echo
+#print axioms respond_stream_guard
+#print axioms respond_udp_bound_partial
+#print axioms respond_padding_only_when
+#print axioms respond_keepalive_only_when
+#print axioms dnscrypt_silent_legacy_counterexample
 #print axioms doh_bound_counterexample
 #print axioms sampleResp_contract
 #print axioms smallResp_contract
